@@ -53,6 +53,9 @@ def main():
         pid = name.split("-")[0]
         if only and name not in only and pid not in only:
             continue
+        since = [float(a[len("--since="):]) for a in sys.argv[1:] if a.startswith("--since=")]
+        if since and os.path.exists(f"{dst}/meta.json") and os.path.getmtime(f"{dst}/meta.json") > since[0]:
+            continue
         if "--new" in sys.argv and os.path.exists(f"{dst}/meta.json") and json.load(open(f"{dst}/meta.json")).get("confirmed"):
             continue
         old_meta = json.load(open(f"{dst}/meta.json")) if os.path.exists(f"{dst}/meta.json") else {}
@@ -86,7 +89,10 @@ def main():
             shutil.copy("/verif/known_findings.json", OUT + "/known_findings.json")
             if "--official" in sys.argv:
                 pass
-            ck = sh("/verif/bin/govc", "check", "-repo", WT, "-verif", OUT, "-props", pid, "-tier", "quick")
+            ck_args = ["/verif/bin/govc", "check", "-repo", WT, "-verif", OUT, "-props", pid, "-tier", "quick"]
+            if "--noreplay" in sys.argv:
+                ck_args += ["-noreplay", "-t2", "25"]
+            ck = sh(*ck_args)
             viol = [l for l in ck.stdout.splitlines() if l.startswith("VIOLATION")]
             meta["check_cmd"] = f"govc check -repo <scratch worktree with patch> -props {pid} -tier quick (same engine and contracts as ./check {pid} quick)"
             meta["check_exit"] = ck.returncode
